@@ -537,6 +537,7 @@ func (c *Collection) Incr(key string, amt, deflt uint64, exp Exp) (result uint64
 		return &event{
 			key:      key,
 			value:    raw,
+			isJSON:   true,
 			xattrs:   xattrs,
 			cas:      newCas,
 			exp:      exp,
